@@ -249,15 +249,17 @@ Fixpoint gen_step (fuel : nat) (d : dstate) (me : name) : gyield * dstate :=
   end end.
 
 (* TaskDispatcher._update_waiting (544-587), body of the loop over node.waiting_me *)
+Definition wake_node (nd : node) (fin : name) (fst : status) : node :=
+  let nw := parent_status nd fin fst in
+  let nw1 := nd_wait nw (rem fin (n_wrun nw)) (rem fin (n_wcalc nw)) in
+  if mem fin (n_wcalc nd) then process_calc nw1 fin fst else nw1.
+Definition wake_ready (nd : node) (fin : name) (nw2 : node) : bool :=
+  if mem fin (n_wcalc nd) then true else is_nil (n_wrun nw2) && is_nil (n_wcalc nw2).
 Definition wake_one (d : dstate) (fin : name) (fst : status) (w : name) : dstate :=
-  let nw := parent_status (node_of d w) fin fst in
-  let in_run := mem fin (n_wrun nw) in
-  let nw1 := if in_run then nd_wait nw (rem fin (n_wrun nw)) (n_wcalc nw)
-             else nd_wait nw (n_wrun nw) (rem fin (n_wcalc nw)) in
-  let nw2 := if in_run then nw1 else process_calc nw1 fin fst in
-  let is_ready := if in_run then is_nil (n_wrun nw2) && is_nil (n_wcalc nw2) else true in
+  let nd := node_of d w in
+  let nw2 := wake_node nd fin fst in
   let d1 := set_node d w nw2 in
-  if is_ready && mem w (d_waiting d1)
+  if wake_ready nd fin nw2 && mem w (d_waiting d1)
   then set_waiting (set_ready d1 (d_ready d1 ++ [w])) (rem w (d_waiting d1)) else d1.
 Fixpoint wake (d : dstate) (fin : name) (fst : status) (l : list name) : dstate :=
   match l with
